@@ -43,11 +43,17 @@ Definition bad (chk : method -> bool) : list string :=
   map m_name (filter (fun m => negb (chk m)) (mt_methods memory_methods)).
 Definition gd := mt_guard memory_methods.
 Definition F_locks := Eval vm_compute in
-  (locks_ok memory_methods, bad (fun m => forallb (path_locks_ok gd) (m_paths m) && body_check accept_locks gd m)).
+  (locks_ok memory_methods, bad (fun m => forallb (path_locks_ok gd) (m_paths m))).
 Definition F_close := Eval vm_compute in
-  (close_ok memory_methods, bad (fun m => forallb (path_close_ok (m_chan m)) (m_paths m) && body_check accept_close gd m)).
+  (close_ok memory_methods, bad (fun m => forallb (path_close_ok (m_chan m)) (m_paths m))).
 Definition F_params := Eval vm_compute in
-  (params_ok memory_methods, bad (fun m => forallb path_params_ok (m_paths m) && body_check accept_params gd m)).
+  (forallb (fun m => forallb path_params_ok (m_paths m)) (mt_methods memory_methods),
+   bad (fun m => forallb path_params_ok (m_paths m))).
+(* methods whose structured body fails although all its listed 0/1 paths pass: a loop body that does not return to its
+   entry state (lock / channel / deferred state), i.e. the discipline breaks from the second iteration on *)
+Definition F_body := Eval vm_compute in
+  (true, bad (fun m => negb (forallb (path_locks_ok gd) (m_paths m) && forallb (path_close_ok (m_chan m)) (m_paths m))
+                      || match interp gd (m_body m) (ast_init (m_chan m)) [] with Some _ => true | None => false end)).
 Definition F_hash := Eval vm_compute in (all_same_hash memory_lookup_hashes, List.length memory_lookup_hashes).
 Definition F_sect := Eval vm_compute in
   (forallb (one_section_method memory_methods)
@@ -59,7 +65,7 @@ Definition F_sect := Eval vm_compute in
      ("memory.AddTriples" :: "memory.Exist" :: memory_lookup_names)).
 Definition F_counts := Eval vm_compute in
   (List.length (mt_methods memory_methods), fold_right plus 0 (map (fun m => List.length (m_paths m)) (mt_methods memory_methods))).
-Print F_locks. Print F_close. Print F_params. Print F_hash. Print F_sect. Print F_counts.
+Print F_locks. Print F_close. Print F_params. Print F_body. Print F_hash. Print F_sect. Print F_counts.
 """
 
 
@@ -74,7 +80,7 @@ def gen_state():
 def facts(ctx):
     out = vcheck.norm(vcheck.coq_eval(ctx.work, "facts_c07", FACTS_V, timeout=300))
     res = {}
-    for key in ("locks", "close", "params"):
+    for key in ("locks", "close", "params", "body"):
         m = re.search(r"F_%s = \((true|false), (\[.*?\]|nil)\)" % key, out)
         if not m:
             raise vcheck.Broken("could not read F_%s from Coq" % key, out[-1500:])
@@ -272,6 +278,13 @@ def dynamic(ctx, state_unfixed, record=True):
             problems.append({"kind": "callers-sharing-LookupOptions-interfere", "detail": meas["sharedlo"],
                              "unclassified_races": unexpected[:2],
                              "explain": "goroutines sharing one LookupOptions{LatestAnchor:true} got errors / wrong results / races"})
+    # 3b. targeted probe: one writer adds a 40-triple batch to a fresh graph while readers list the graph
+    rows, _ = hconc(["-mode", "batch", "-threads", "4", "-n", "60" if quick else "1500", "-seed", seed])
+    r = rows[-1]
+    meas["batch"] = {k: r.get(k) for k in ("rounds", "readers", "batch_size", "reads", "empty_reads", "full_reads", "torn", "errors")}
+    if r.get("torn") or r.get("errors"):
+        problems.append({"kind": "lookup-observed-partial-batch", "detail": meas["batch"], "first": r.get("first_torn"),
+                         "explain": "Triples() returned more than 0 and fewer than all triples of a single AddTriples call on a fresh graph"})
     rows, _ = hconc(["-mode", "replay"])
     rep = rows[-1]
     meas["replay"] = {k: rep.get(k) for k in ("reproduced", "b_error", "a_error", "b_closed", "b_equals_a", "options_after")}
@@ -301,10 +314,10 @@ def fill_cov(ctx, meas, fx):
             seen.add(r.get("digest") or vcheck.case_hash(r))
     stress_ops = sum((s.get("ops") or 0) for s in meas.get("stress", []))
     ctx.cov["evaluations"] = len(lin_rows) + stress_ops + (meas.get("sharedlo", {}).get("calls") or 0) + \
-        (meas.get("selftest", {}).get("ops") or 0)
+        (meas.get("selftest", {}).get("ops") or 0) + (meas.get("batch", {}).get("reads") or 0)
     ctx.cov["distinct_nontrivial"] = len(seen)
     ctx.cov["rule"] = ("evaluations = recorded concurrent histories (lin rounds) + stress operations under the race detector + "
-                       "shared-options calls + sequential self-test operations; distinct_nontrivial counts lin histories only: "
+                       "shared-options calls + sequential self-test operations + batch-probe reads; distinct_nontrivial counts lin histories only: "
                        "distinct by sha1 of the per-goroutine operation sequences, non-trivial = at least one pair of operations "
                        "of different goroutines overlaps in real time AND (a lookup returned a non-empty result OR the history "
                        "contains store-level operations)")
@@ -319,7 +332,7 @@ def fill_cov(ctx, meas, fx):
                       "nonempty_lookups": sum(r.get("nonempty_lookups", 0) for r in lin_rows),
                       "error_classes": merge_counts(r.get("errors") or {} for r in lin_rows),
                       "summaries": meas.get("lin_summaries")}
-    for k in ("selftest", "stress", "sharedlo", "replay", "replay_writer"):
+    for k in ("selftest", "stress", "sharedlo", "batch", "replay", "replay_writer"):
         ctx.cov[k] = meas.get(k)
     ctx.cov["generated_table"] = fx
     ctx.cov["checker_cmd"] = ("work/bin/genlocks -o coq/Conc/Gen/LockFactsGen.v (cwd=/repo); coqc -Q coq/Conc BWConc "
@@ -341,10 +354,14 @@ def run(ctx):
     fx = facts(ctx)
     fx["state"] = "unfixed (paths write through the options pointer)" if unfixed else "fixed (no parameter writes)"
     broken = []
-    if not fx["locks"][0]:
+    if fx["locks"][1]:
         broken.append("lock discipline fails in: " + ", ".join(fx["locks"][1]))
-    if not fx["close"][0]:
+    if fx["close"][1]:
         broken.append("close-exactly-once fails in: " + ", ".join(fx["close"][1]))
+    if fx["body"][1]:
+        broken.append("loop body does not return to its entry lock/channel/defer state in: " + ", ".join(fx["body"][1]))
+    if not broken and not (fx["locks"][0] and fx["close"][0]):
+        broken.append("locks_ok / close_ok is false on the structured bodies")
     if not fx["hash"][0] or fx["hash"][1] != 11:
         broken.append("the eleven lookups are no longer copies of one function (normalised-body hashes differ / count %d)" % fx["hash"][1])
     if not fx["sections"]:
